@@ -1052,7 +1052,7 @@ class C11(NlpCheck):
     def twin_slice(self):
         import casadi as ca
         n = 12 if self.tier == 'quick' else 150
-        prof = {'methods': ALLM, 'grids': FIXED_GRIDS + ['uniform_locT', 'free', 'uniform_locT0'], 'horizon': ['freeT', 'freet0', 'freeboth'],
+        prof = {'methods': ALLM, 'grids': FIXED_GRIDS + ['uniform_locT', 'free', 'uniform_locT0', 'geometric_locT', 'geometric_locT0'], 'horizon': ['freeT', 'freet0', 'freeboth'],
                 'obj_kinds': ['at_tf', 'integral'], 'ncons': (0, 2), 'Ns': [1, 2, 3], 'Ms': [1, 2], 'degrees': [1, 2, 3]}
         for it_ in range(n):
             forced = it_ < (4 if self.tier == 'quick' else 40)
@@ -1093,6 +1093,26 @@ class C11(NlpCheck):
                         self.violation("starting value of %s is %s, the guess in effect is %s (%s)" % (key, float(val), float(want),
                                        "set_initial" if key in user_guess else "FreeTime guess; a user guess was given for the other end only" if user_guess else "FreeTime guess"),
                                        {"desc": dA}, {"kind": "free-start", "which": key})
+                        return
+                # the variables of a localized grid start ON the guessed horizon: interval lengths sum to the starting T, the last local
+                # start time is the starting t0 + T
+                T0s, t00s = phys0['T'][0][0], phys0['t0'][0][0]
+                gkind = dA['method']['grid']
+                if 'Tl' in phys0 and gkind['kind'] != 'free' and not gkind.get('localize_t0'):
+                    tot = sum((v for v in phys0['Tl'][0]), Fr(0))
+                    self.count("localized-grid-start-checked")
+                    if abs(float(tot - T0s)) > 1e-9 * max(1.0, abs(float(T0s))):
+                        self.slice_ok["start-value-is-guess"] = False
+                        self.violation("the local interval lengths start at %s (sum %s) while T starts at %s and t0 at %s" % ([float(v) for v in phys0['Tl'][0]], float(tot), float(T0s), float(t00s)),
+                                       {"desc": dA}, {"kind": "free-start", "which": "local-grid"})
+                        return
+                if 't0l' in phys0:
+                    last = phys0['t0l'][0][-1]
+                    self.count("localized-grid-start-checked")
+                    if abs(float(last - (t00s + T0s))) > 1e-9 * max(1.0, abs(float(t00s + T0s))):
+                        self.slice_ok["start-value-is-guess"] = False
+                        self.violation("the local start times start at %s while t0 + T starts at %s" % ([float(v) for v in phys0['t0l'][0]], float(t00s + T0s)),
+                                       {"desc": dA}, {"kind": "free-start", "which": "local-grid"})
                         return
                 dB = copy.deepcopy(dA)
                 dB.pop('initial_list', None)
@@ -1177,7 +1197,8 @@ def var_map(b):
 @register
 class C14(NlpCheck):
     pid = "C14"
-    slices = ["scaled-nlp", "scaled-vs-unscaled", "layout-is-diag-scale", "polynomial-controls"]
+    uses_generated = True
+    slices = ["scaled-nlp", "scaled-vs-unscaled", "layout-is-diag-scale", "polynomial-controls", "scales-of-template-instances"]
     tags = None
     whole = True
     want_f = True
@@ -1200,6 +1221,62 @@ class C14(NlpCheck):
         NlpCheck.correspondence(self)
         self.twin_slice()
         self.polynomial_controls_slice()
+        self.template_scales_slice()
+
+    def template_scales_slice(self):
+        """scales are per stage: two instances of one template, the second re-declaring a derivative with another scale (multi-phase use),
+        give the NLP of the same two stages declared directly, each with its own scales"""
+        import casadi as ca
+        from .props2 import nlp_compare_ocps
+        rockit = B.import_rockit()
+        name = "scales-of-template-instances"
+        n = 3 if self.tier == 'quick' else 24
+        rng = self.rng
+        for it in range(n):
+            kind = ['dc', 'ms', 'dc'][it % 3]
+            sx, sd1, sd2 = rng.choice([2.0, 3.0, 0.5]), rng.choice([4.0, 2.0]), rng.choice([10.0, 0.25, 8.0])
+            N, M = rng.randint(2, 3), rng.randint(1, 2)
+
+            def mk():
+                return rockit.DirectCollocation(N=N, M=M, degree=2) if kind == 'dc' else rockit.MultipleShooting(N=N, M=M, intg='rk')
+
+            def declare(st, second):
+                x = st.state(scale=sx); u = st.control()
+                st.set_der(x, (-2 * x + u) if second else (-x + u), scale=sd2 if second else sd1)
+                st.add_objective(st.integral(x ** 2 + u ** 2))
+                st.subject_to(-2 <= (u <= 2))
+                st.method(mk())
+                return x
+
+            def build(templated):
+                with B.quiet():
+                    ocp = rockit.Ocp()
+                    if templated:
+                        tmpl = rockit.Stage(t0=0, T=1)
+                        x = declare(tmpl, False)
+                        s1 = ocp.stage(tmpl, t0=0)
+                        s2 = ocp.stage(tmpl, t0=1)
+                        u2 = s2.controls[0]
+                        s2.set_der(x, -2 * x + u2, scale=sd2)
+                        x1 = x2 = x
+                    else:
+                        s1 = ocp.stage(t0=0, T=1); x1 = declare(s1, False)
+                        s2 = ocp.stage(t0=1, T=1); x2 = declare(s2, True)
+                    ocp.subject_to(s1.at_t0(x1) == 1)
+                    ocp.subject_to(s1.at_tf(x1) == s2.at_t0(x2))
+                    ocp.solver('ipopt', {'ipopt.print_level': 0, 'print_time': False, 'ipopt.max_iter': 0, 'ipopt.sb': 'yes'})
+                return ocp
+            try:
+                msg = nlp_compare_ocps(build(True), build(False), rng, "two instances of a template (state scale %s, derivative scales %s and %s) vs the stages declared directly (%s)" % (sx, sd1, sd2, kind))
+            except Exception as ex:
+                msg = "template instances with their own derivative scales raised %s: %s" % (type(ex).__name__, str(ex)[:250].replace("\n", " "))
+            self.evaluations += 1
+            self.signatures.add("tmpl-scale-%d" % it)
+            self.count("template-instance-scales:" + kind)
+            if msg:
+                self.slice_ok[name] = False
+                self.violation(msg, {"kind": kind, "scale_x": sx, "scale_der": [sd1, sd2], "N": N, "M": M}, {"kind": "template-scales"})
+                return
 
     def polynomial_controls_slice(self):
         """ocp.control(order=k>=1, scale=s): rockit builds it as a state driven by a lower-order helper control. The solver variables of the
@@ -1944,7 +2021,7 @@ class C13(Check):
         n = 150 if self.tier == 'quick' else 1500
         maxops = 9 if self.tier == 'quick' else 25
         prof = {'methods': [('ms', 'rk'), ('dc', 'rk'), ('ss', 'rk'), ('ms', 'euler')], 'grids': ['uniform', 'geometric'], 'horizon': ['num', 'freeT', 'param'],
-                'obj_kinds': ['at_tf', 'integral'], 'ncons': (0, 2), 'features': {'p': 1.0, 'pc': 0.5, 'qstate': 0.0},
+                'obj_kinds': ['at_tf', 'integral'], 'ncons': (0, 2), 'features': {'p': 1.0, 'pc': 0.6, 'pcp': 0.6, 'qstate': 0.0},
                 'Ns': [2, 3], 'Ms': [1, 2], 'degrees': [1, 2], 'nxs': [1, 2], 'nus': [1]}
         # dedicated histories first (each a known-delicate order), then random ones
         PLANNED = [
@@ -1993,14 +2070,16 @@ class C13(Check):
                 try:
                     with B.quiet():
                         if op == 'set_value':
-                            gk = self.rng.choice([g for g in ('', 'control') if bA.params[g]])
+                            gk = self.rng.choice([g for g in ('', 'control', 'control+') if bA.params[g]])
                             i = self.rng.randrange(len(bA.params[gk]))
                             if force_hz and cur['T'][0] == 'p':
                                 gk = ''
                                 offs_ = sym_offsets(cur['params'][''])
                                 i = [j for j in range(len(offs_)) if offs_[j] == cur['T'][1]][0]
                             p = bA.params[gk][i]
-                            cols = 1 if gk == '' else cur['method']['N']
+                            cols = 1 if gk == '' else cur['method']['N'] + (1 if gk == 'control+' else 0)
+                            if gk != '' and p.numel() == 1 and self.rng.random() < 0.4:
+                                cols = 1          # one number for every interval / node (rockit broadcasts a scalar, not a column)
                             val = ca.DM([[self.rng.randint(1, 12) / 4.0 for _c in range(cols)] for _r in range(p.numel())])
                             if force_hz and (gk, i) in cur['param_values'] and float(cur['param_values'][(gk, i)]) == float(val):
                                 val = val + 0.75
@@ -2370,6 +2449,37 @@ class C20(Check):
                 if raised is None or self.count_solver_calls() != n0:
                     self.slice_ok["fault-matrix"] = False
                     self.violation("SplineMethod accepted %s dynamics (%s)" % ("nonlinear" if fault == 'spline_nonlinear' else "time-varying", form), {"fault": fault, "form": form}, {"kind": "fault-accepted", "fault": fault, "method": "spline", "form": form})
+        # a value missing for a parameter of ONE instance of a template (the siblings have theirs): rejected for that instance
+        from rockit import Stage, MultipleShooting, DirectCollocation
+        for where in ('first-instance-only', 'second-instance-only', 'template-after-instantiation'):
+            for gridk in ('', 'control'):
+                ocp = Ocp()
+                tmpl = Stage(t0=0, T=1)
+                x = tmpl.state(); u = tmpl.control()
+                q = tmpl.parameter() if gridk == '' else tmpl.parameter(grid='control')
+                tmpl.set_der(x, -x + u + q)
+                tmpl.add_objective(tmpl.integral(x ** 2 + u ** 2))
+                tmpl.method(MultipleShooting(N=2, intg='rk') if self.rng.random() < 0.5 else DirectCollocation(N=2, degree=2))
+                s1 = ocp.stage(tmpl, t0=0); s2 = ocp.stage(tmpl, t0=1)
+                ocp.subject_to(s1.at_t0(x) == 1); ocp.subject_to(s1.at_tf(x) == s2.at_t0(x))
+                {'first-instance-only': s1, 'second-instance-only': s2, 'template-after-instantiation': tmpl}[where].set_value(q, 0.5)
+                ocp.solver('ipopt', {'ipopt.print_level': 0, 'print_time': False, 'ipopt.sb': 'yes', 'ipopt.max_iter': 1})
+                n0 = self.count_solver_calls()
+                raised = None
+                with B.quiet():
+                    try:
+                        ocp.solve()
+                    except Exception as ex:
+                        raised = ex
+                rejected = raised is not None and self.count_solver_calls() == n0
+                self.evaluations += 1
+                self.signatures.add(('missing_value_one_instance', where, gridk))
+                self.count("fault:missing_parameter_value_on_one_instance")
+                if not rejected:
+                    self.slice_ok["fault-matrix"] = False
+                    self.violation("a template instance without a value for its parameter (value given: %s) was accepted and handed to the solver" % where,
+                                   {"fault": "missing_parameter_value_on_one_instance", "where": where, "grid": gridk}, {"kind": "fault-accepted", "fault": "missing_parameter_value_on_one_instance"})
+                    return
 
 
 def sym_offsets(sizes):
